@@ -137,6 +137,10 @@ func c14Purity(c *core.Ctx) {
 	}
 	Execute(&twin)
 	c.Count("near_twin_runs_before_rerun", 1)
+	if c.R.Bool(0.2) {
+		// ... and a long history of other parameterisations of this model (bounded caches evict and recycle by then)
+		HostileHistory(c, model, nil)
+	}
 	old := runtime.GOMAXPROCS(procs)
 	p3, _ := Prepare(run)
 	o3 := p3.Exec()
